@@ -92,19 +92,26 @@ impl<W: Write + Seek> DbcWriter<W> {
         string_block.push(0);
         string_offsets.insert(String::new(), 0);
 
-        // Add all strings from the record set
+        // Add all strings from the record set (including strings inside array fields)
         for record in record_set.records() {
             for value in record.values() {
-                if let Value::StringRef(string_ref) = value {
-                    let string = record_set.get_string(*string_ref)?;
+                let string_refs: Vec<&Value> = match value {
+                    Value::Array(values) => values.iter().collect(),
+                    other => vec![other],
+                };
 
-                    if !string_offsets.contains_key(string) {
-                        let offset = string_block.len() as u32;
-                        string_offsets.insert(string.to_string(), offset);
+                for value in string_refs {
+                    if let Value::StringRef(string_ref) = value {
+                        let string = record_set.get_string(*string_ref)?;
 
-                        // Add the string to the block
-                        string_block.extend_from_slice(string.as_bytes());
-                        string_block.push(0); // Null terminator
+                        if !string_offsets.contains_key(string) {
+                            let offset = string_block.len() as u32;
+                            string_offsets.insert(string.to_string(), offset);
+
+                            // Add the string to the block
+                            string_block.extend_from_slice(string.as_bytes());
+                            string_block.push(0); // Null terminator
+                        }
                     }
                 }
             }
